@@ -2794,9 +2794,10 @@ impl Translator {
                 };
                 match inner {
                     Some(PatVariantData::Positional(inner)) => {
-                        let pat_ty = self.get_ty(mono, pat.node()).unwrap();
+                        // a void payload is a placeholder: nothing to bind, drop the whole variant
+                        let inner_ty = self.get_ty(mono, inner.node()).unwrap();
 
-                        if pat_ty != SolvedType::Void {
+                        if inner_ty != SolvedType::Void {
                             // unpack tag and associated data
                             self.emit(st, Instr::DeconstructVariant);
                             // pop tag
@@ -2813,7 +2814,19 @@ impl Translator {
                         self.emit(st, Instr::Pop);
                         let pats = self.variant_named_pats_in_order(tag, named);
                         if pats.len() == 1 {
-                            self.handle_pat_binding(&pats[0], locals, st, mono, or_pat_decisions);
+                            let field_ty = self.get_ty(mono, pats[0].node()).unwrap();
+                            if field_ty != SolvedType::Void {
+                                self.handle_pat_binding(
+                                    &pats[0],
+                                    locals,
+                                    st,
+                                    mono,
+                                    or_pat_decisions,
+                                );
+                            } else {
+                                // drop the placeholder payload of a void field
+                                self.emit(st, Instr::Pop);
+                            }
                         } else {
                             self.emit(st, Instr::DeconstructStruct);
                             for pat in pats {
